@@ -1368,6 +1368,13 @@ def simp(v):
             return simp(subst(v[1][2], {tg: ("item", it, pos)}))
         if k == "item" and isinstance(pos, tuple) and pos and pos[0] == "star":
             return simp(("comp", "list", v[1][2], ((tg, ("item", it, pos), ()),)))
+    # a record keyed by literal names: dict(zip(("a", "b"), X))["b"] is X[1]
+    if k == "sub" and v[2][0] == "const" and v[1][0] == "call" and v[1][1] == ("global", "dict") and len(v[1][2]) == 1 and not v[1][3] \
+            and v[1][2][0][0] == "call" and v[1][2][0][1] == ("global", "zip") and len(v[1][2][0][2]) == 2 and not v[1][2][0][3] \
+            and v[1][2][0][2][0][0] in ("tuple", "list") and all(e[0] == "const" for e in v[1][2][0][2][0][1]):
+        names = [e[1] for e in v[1][2][0][2][0][1]]
+        if names.count(v[2][1]) == 1:
+            return simp(("sub", v[1][2][0][2][1], ("const", names.index(v[2][1]))))
     # "ab" * 3
     if k == "binop" and v[1] == "Mult" and {v[2][0], v[3][0]} == {"const"}:
         a, b = v[2][1], v[3][1]
